@@ -154,7 +154,7 @@ def recurring_case(draw, brokers):
             if draw(st.booleans()):
                 a["sleep"] = draw(st.sampled_from([1.0, 3.0, 4.0]))
     jobs = [j]
-    tl = draw(st.sampled_from([1, 1, 2]))
+    tl = draw(st.sampled_from([1, 1, 2, 1000]))
     for i in range(draw(st.integers(0, 2))):  # competing jobs (delivery latency under tasks_limit=1)
         jobs.append({"id": f"c{i}", "actor": "a_plain", "queue": "q0", "retries": 0, "store_result": False,
                      "attempts": [{"k": "ret", "v": i, "sleep": draw(st.sampled_from([0.2, 0.7, 1.3, 2.2]))}],
@@ -162,10 +162,12 @@ def recurring_case(draw, brokers):
     case = {"broker": broker, "seed": draw(st.integers(0, 2**16)), "converter": "basic", "actors": actors,
             "policy": {"kind": "table", "values": draw(st.lists(st.sampled_from([0.0, 0.3, 1.0, 2.5]), min_size=1, max_size=3))},
             "worker": {"tasks_limit": tl}, "jobs": jobs}
-    case["tz"] = draw(st.sampled_from([None, None, "EST5", "IST-5:30", "NZT-13"]))  # host time zone: repid keeps naive local datetimes
+    case["tz"] = draw(st.sampled_from([None, None, *vclock.zones(3)]))  # host time zone: repid keeps naive local datetimes
     if broker != "mem":
         case["lat"] = draw(st.lists(st.sampled_from([0.0, 0.001, 0.003]), max_size=20))
-    return gen.finalize(case)
+    if case["tz"] is None:
+        del case["tz"]
+    return gen.finalize(gen.host_dims(draw, case, rename=False))
 
 
 def run_worker(case: dict) -> Outcome:
@@ -242,6 +244,11 @@ def run_worker(case: dict) -> Outcome:
         if len(places) != 1:
             out.v("successor-count", f"after {n_resched} completed iterations {len(places)} copies of the message exist: "
                   f"{[p_.short() for p_ in places]}", copies=len(places))
+    elif len(places) > 1 and all(e.done or e.error is not None for e in tr.spy.for_id("rec")):
+        # (the scenario ran into the horizon - e.g. because a stray copy kept it from ever settling; with no broker call for the
+        #  message under way, two copies are two copies)
+        out.v("successor-count", f"after {n_resched} completed iterations {len(places)} copies of the message exist: "
+              f"{[p_.short() for p_ in places]}", copies=len(places))
     if n_resched < j["iterations"] and not tr.horizon_hit and not out.violations:
         out.v("too-few-iterations", f"only {n_resched} reschedules observed, expected at least {j['iterations']}")
     if tr.horizon_hit and n_resched < j["iterations"]:
